@@ -19,7 +19,7 @@ def run(ctx):
     rng = ctx.rng
     ctx.rule = ("(i) fast_intersection on random COO triples and label vectors (1-6 classes, 0-60% unlabelled) vs the Lean model, exact "
                 "attenuation factors; (ii) UMAP(target_weight=w).fit(X, y).graph_ vs the model's categoricalIntersection applied to the "
-                "unsupervised graph of the same data, for w in {0,.25,.5,.9,.99,1}, label renamings (negative, large, permuted), and the "
+                "unsupervised graph of the same data, for w in {0,.25,.5,.9,.99,1}, unique=True with duplicated rows, label renamings (negative, permuted, adjacent integers beyond 2^24 / 2^31 / 2^40), and the "
                 "property's clauses on the real graphs (symmetry, range, support subset, unit edge, renaming invariance, separation at "
                 "w=1); also checks that float exp(-1e12) underflows to 0; non-trivial = at least 2 classes and one unlabelled sample")
     ctx.assumptions += ["sklearn.preprocessing.normalize(norm='max') by contract", "np.exp(-1e12) == 0.0 (asserted each run)"]
@@ -70,22 +70,46 @@ def run(ctx):
         w = [0.0, 0.25, 0.5, 0.9, 0.99, 1.0][t % 6]
         k = int(rng.integers(4, 10))
         kw = dict(n_neighbors=k, random_state=5, n_epochs=0, init="random")
-        case = {"n": n, "k": k, "target_weight": w, "labels": y.tolist(), "X": X.tolist()}
+        uniq = (t % 4 == 1)
+        if uniq:
+            # unique=True: the graph lives on the distinct rows in np.unique's (sorted) order; duplicated rows share a label
+            src = rng.integers(0, n, 5)
+            dst = rng.integers(0, n, 5)
+            X[dst] = X[src]
+            y[dst] = y[src]
+            kw["unique"] = True
+            _, uidx = np.unique(X, return_index=True, axis=0)
+        else:
+            uidx = np.arange(n)
+        case = {"n": n, "k": k, "target_weight": w, "unique": bool(uniq), "labels": y.tolist(), "X": X.tolist()}
+        y_in = y
+        y = y[uidx]              # label of each graph vertex
+        n = len(uidx)
         try:
             unsup = umap.UMAP(**kw).fit(X).graph_
-            sup = umap.UMAP(target_weight=w, **kw).fit(X, y).graph_
+            sup = umap.UMAP(target_weight=w, **kw).fit(X, y_in).graph_
             # renaming: an injective relabelling that fixes -1 (negative and large values included)
             perm = rng.permutation(ncls)
             table = {c: int(v) for c, v in zip(range(ncls), (perm * 1000 + 7) * rng.choice([-1, 1]))}
             table = {c: (v if v != -1 else 999983) for c, v in table.items()}
-            y2 = np.array([table[int(v)] if v != -1 else -1 for v in y], dtype=np.int64)
+            y2 = np.array([table[int(v)] if v != -1 else -1 for v in y_in], dtype=np.int64)
             sup2 = umap.UMAP(target_weight=w, **kw).fit(X, y2).graph_
+            # ... and one onto adjacent large integers (distinct as integers, not as float32)
+            base = int(rng.choice([100000001, 2 ** 31 + 1, -(2 ** 40) - 1]))
+            y3 = np.array([base + int(perm[int(v)]) if v != -1 else -1 for v in y_in], dtype=np.int64)
+            sup3 = umap.UMAP(target_weight=w, **kw).fit(X, y3).graph_
         except Exception as e:  # noqa
             ctx.violation("exception", f"supervised fit raised {type(e).__name__}: {e}", case)
             continue
         g, gu = sparse_to_dict(sup), sparse_to_dict(unsup)
+        if sup.shape != (n, n):
+            ctx.violation("shape", f"supervised graph has shape {sup.shape}, {n} distinct samples", case)
+            continue
         if (sup != sup2).nnz != 0:
             ctx.violation("renaming", "graph changes under an injective renaming of the class labels (-1 fixed)", dict(case, renamed=y2.tolist()))
+        if (sup != sup3).nnz != 0:
+            ctx.violation("renaming", "graph changes under an injective renaming of the class labels onto adjacent large integers (-1 fixed)",
+                          dict(case, renamed=y3.tolist()))
         for (i, j), v in g.items():
             if not (0 < v <= 1 + 1e-6) or not np.isfinite(v):
                 ctx.violation("range", f"entry ({i},{j}) = {v} outside (0,1]", case)
